@@ -269,13 +269,18 @@ func init() {
 		},
 		"verif/symx.SoftOpaque": func(fr *frame, a []value) value { fr.i.softOpaque = a[0].(bool); return nil },
 		// Cost(): SSA instructions executed so far on this path (a deterministic cost meter)
-		"verif/symx.PrintedCount": func(fr *frame, a []value) value { return len(fr.i.path.printed) },
-		"verif/symx.PrintedAt": func(fr *frame, a []value) value {
-			k := int(asInt64(a[0]))
-			if k < 0 || k >= len(fr.i.path.printed) {
-				return ""
+		"verif/symx.Printed": func(fr *frame, a []value) value {
+			var out value = ""
+			for _, p := range fr.i.path.printed {
+				if ps, ok := p.(string); ok {
+					if os, ok := out.(string); ok {
+						out = os + ps
+						continue
+					}
+				}
+				out = symStrBinop(token.ADD, out, p)
 			}
-			return fr.i.path.printed[k]
+			return out
 		},
 		"verif/symx.Cost": func(fr *frame, a []value) value { return int(fr.i.fuelStart - fr.i.fuel) },
 		"verif/symx.SoftFuel": func(fr *frame, a []value) value {
